@@ -8,6 +8,7 @@ structure DState where
   cs : List Client := []
   ever : List Nat := []      -- ids ever connected
   hsDone : List Nat := []    -- ids that completed the handshake up to INITIALISATION
+  mac : List Nat := []       -- ids that announced RFB 003.889 (implicit ClientInit, shared)
 
 def showClient (s : DState) (id : Nat) : String :=
   match s.cs.find? (fun c => c.id == id) with
@@ -41,10 +42,21 @@ def dstep (s : DState) (toks : List String) : DState × List String :=
       if s.ever.contains id then (s, ["bad-op"]) else
       ({ s with cs := step s.cfg s.cs (.connect id rev), ever := insertSorted id s.ever }, ["ok"])
     | _, _ => (s, ["bad-op"])
+  | ["conn889", id, rev] =>
+    match id.toNat?, b? rev with
+    | some id, some rev =>
+      if s.ever.contains id then (s, ["bad-op"]) else
+      ({ s with cs := step s.cfg s.cs (.connect id rev), ever := insertSorted id s.ever,
+                mac := id :: s.mac }, ["ok"])
+    | _, _ => (s, ["bad-op"])
   | ["hs", id] =>
     match id.toNat? with
     | some id =>
-      if isLive s id && !s.hsDone.contains id then ({ s with hsDone := id :: s.hsDone }, ["ok"])
+      if isLive s id && !s.hsDone.contains id then
+        if s.mac.contains id then
+          -- RFB_INITIALISATION_SHARED: rfbProcessClientInitMessage runs at once with shared = 1
+          ({ s with hsDone := id :: s.hsDone, cs := step s.cfg s.cs (.init id true) }, ["ok"])
+        else ({ s with hsDone := id :: s.hsDone }, ["ok"])
       else (s, ["bad-op"])
     | none => (s, ["bad-op"])
   | ["init", id, sh] =>
